@@ -461,6 +461,10 @@ func WithPrec(t *rapid.T, s *Spec) {
 	for i := range s.Rules {
 		if k > 0 && rapid.IntRange(0, 4).Draw(t, "useprec") == 0 {
 			s.Rules[i].Prec = perm[rapid.IntRange(0, k-1).Draw(t, "pt")]
+		} else if n > 0 && rapid.IntRange(0, 14).Draw(t, "precplain") == 0 {
+			// %prec naming a token that is on no precedence line is legal: the
+			// rule then simply has no precedence
+			s.Rules[i].Prec = rapid.IntRange(0, n-1).Draw(t, "ptany")
 		}
 	}
 	s.fixUse()
@@ -629,5 +633,28 @@ func HugeRule(t *rapid.T) *Spec {
 		}
 	}
 	s.Rules = append(s.Rules, Rule{LHS: s.Start, RHS: rhs, Prec: -1})
+	return s
+}
+
+// Blowup builds a small grammar whose LR(0) automaton has exponentially many
+// states ((a|b)* a (a|b)^n): yaccgo must stop at its 2000-state limit.
+func Blowup(t *rapid.T) *Spec {
+	s := base()
+	s.Terms = []Term{{Name: "A", Decl: "token"}, {Name: "B", Decl: "token"}}
+	s.NTs = []NonTerm{{Name: "s"}, {Name: "x"}, {Name: "y"}}
+	n := rapid.IntRange(12, 16).Draw(t, "n")
+	rhs := []int{2 + 1, 0}
+	for i := 0; i < n; i++ {
+		rhs = append(rhs, 2+2)
+	}
+	s.Rules = []Rule{
+		{LHS: 0, RHS: rhs, Prec: -1},
+		{LHS: 1, Prec: -1},
+		{LHS: 1, RHS: []int{2 + 1, 0}, Prec: -1},
+		{LHS: 1, RHS: []int{2 + 1, 1}, Prec: -1},
+		{LHS: 2, RHS: []int{0}, Prec: -1},
+		{LHS: 2, RHS: []int{1}, Prec: -1},
+	}
+	s.Start = 0
 	return s
 }
